@@ -61,6 +61,7 @@ TReset ==
 TPack ==
   /\ IsEvent("Pack")
   /\ Pack(ev.b, ev.par, ev.p, ev.now, ev.txs, ev.cord, ev.opt)
+  /\ \A i \in DOMAIN ev.deps : ev.deps[i].adopted = DepAdoptable(ev.deps[i].found, ev.deps[i].reverted)     \* R-DEP
   /\ LET B == blocks'[ev.b] IN
      /\ B.slot = ev.slot /\ B.score = ev.score /\ B.benef = ev.benef /\ B.num = ev.num
      /\ Matches(B.w, ev.post)
